@@ -211,6 +211,33 @@ def compilation_histories(ctx, S, nprog):
     ctx.count("compilation histories sharing subroutines across two specs: agree", n_ok)
 
 
+def same_name_subroutines(ctx, S, kernel_ns):
+    """two DIFFERENT subroutines that carry the same name (e.g. produced by a factory), both called by one kernel"""
+    pro = '    z0 = spec.get_static_trap(zone_id="traps")\n    f0 = schedule.device_fn(k0, [0, 1], [0])\n'
+    a = kernels.define("@move\ndef layer(k: int):\n" + pro + "    gate.global_rz(0.25)\n    f0(1.0, 2.0)\n", S=S, **kernel_ns)["layer"]
+    b = kernels.define("@move\ndef layer(k: int):\n" + pro + "    gate.local_rz(0.75, z0)\n", S=S, **kernel_ns)["layer"]
+    main_src = "def main(n: int):\n    la(n)\n    lb(n)\n    la(n)\n"
+    want_kinds = ["global_rz", "play", "local_rz", "global_rz", "play"]
+    logs = {}
+    for dec, plain, label in (("@move", False, "run-time spec"), ("@move(arch_spec=S)", True, "compile-time spec"),
+                              ("@move(arch_spec=S, fold=False)", True, "compile-time spec, fold=False")):
+        try:
+            m = kernels.define(dec + "\n" + main_src, S=S, la=a, lb=b, **kernel_ns)["main"]
+            st, evs, extra = events.run_events(m, (1,), S, plain=plain)
+        except Exception as e:
+            st, evs, extra = "err", [], f"{type(e).__name__}: {e}"
+        ctx.evaluations += 1
+        kinds = [e[0] for e in evs]
+        logs[label] = text_of(evs)
+        if st != "ok" or kinds != want_kinds:
+            ctx.fail({"kind": "events-differ", "route": label, "scenario": "two subroutines with one name"},
+                     {"src": "layer#1: global_rz(0.25); f0(1.0, 2.0)\nlayer#2: local_rz(0.75, z0)\n" + main_src, "route": label},
+                     f"{label}: a kernel calling two different subroutines that are both named 'layer' executes {kinds} instead of {want_kinds} ({extra})")
+    if len({tuple(v) for v in logs.values()}) > 1:
+        ctx.fail({"kind": "events-differ", "scenario": "two subroutines with one name", "symptom": "routes disagree"}, {"src": main_src},
+                 "the routes execute different events for a kernel calling two different subroutines of the same name")
+
+
 HEUR = {}        # program term -> {subroutine: AggressiveUnroll.inline_heuristic(code)}
 
 
@@ -294,6 +321,7 @@ def run(ctx):
                 else:
                     ctx.hist("route_outcome", "agrees")
     compilation_histories(ctx, S, ctx.pick(10, 80))
+    same_name_subroutines(ctx, S, kernel_ns)
     # ---- Coq: the source-level semantics of Model.MoveLang on the same programs ----
     byprog = {}
     for c in labels_cases:
